@@ -44,7 +44,8 @@ fn altitude_value(message: &[u32], code: Option<u16>) -> Option<u32> {
                         _ => None,
                     }
                 }
-                _ => Some((((code >> 7) << 4) | ((code >> 2) & 0b1111)) as u32 * 25 - 1000),
+                // below -1000 ft does not exist; 25 * N - 1000 < 0 means no altitude
+                _ => ((((code >> 7) << 4) | ((code >> 2) & 0b1111)) as u32 * 25).checked_sub(1000),
             },
             _ => Some(
                 ((((code >> 7) << 4) & 0b11111110000 | (code >> 2) & 0b1111) as f32 * 0.31) as u32,
